@@ -217,6 +217,9 @@ def cache_type(method: Method) -> Method:
     @wraps(method)
     def wrapper(self: "SchemaBuilder", *args, **kwargs):
         factory = method(self, *args, **kwargs)
+        # an object being flattened has its own resolvers (reaching it through the
+        # flattening one): it is not the type of its plain use
+        flattened = getattr(self, "get_flattened", None) is not None
 
         @wraps(factory.factory)
         def name_cache(
@@ -225,6 +228,8 @@ def cache_type(method: Method) -> Method:
             if name is None:
                 tp = factory.factory(name, description)
                 return graphql.GraphQLNonNull(tp) if tp is not JSON_SCALAR else tp
+            if flattened:
+                return graphql.GraphQLNonNull(factory.factory(name, description))
             # Method is in cache key because scalar types will have the same method,
             # and then be shared by both visitors, while input/output types will have
             # their own cache entry.
@@ -785,7 +790,9 @@ class OutputSchemaBuilder(
             visited_fields.append(normal_field)
 
         interface_thunk = None
-        interfaces = list(map(self.visit, get_interfaces(cls)))
+        with context_setter(self):
+            self.get_flattened = None  # interfaces are types of their own
+            interfaces = list(map(self.visit, get_interfaces(cls)))
         if interfaces or flattened_factories:
 
             def interface_thunk() -> Collection[graphql.GraphQLInterfaceType]:  # noqa
